@@ -26,7 +26,8 @@ namespace internal {
 template <typename T>
 constexpr auto trunc_int(T const x) noexcept -> T
 {
-    return (T(static_cast<llint_t>(x)));
+    // keep the sign of the argument: (-1, 0) truncates to negative zero
+    return (x < T(0)) ? -T(static_cast<llint_t>(-x)) : T(static_cast<llint_t>(x));
 }
 
 template <typename T>
@@ -38,9 +39,12 @@ constexpr auto trunc_check(T const x) noexcept -> T
             !is_finite(x) ? x
                           :
                           // signed-zero cases
-            etl::numeric_limits<T>::epsilon() > abs(x) ? x
-                                                       :
-                                                       // else
+            x == T(0) ? x
+                      :
+                      // already integral, and possibly too large for llint_t
+            abs(x) >= T(1) / etl::numeric_limits<T>::epsilon() ? x
+                                                               :
+                                                               // else
             trunc_int(x)
     );
 }
